@@ -386,7 +386,7 @@ func TestGeneratedDefinitions(t *testing.T) {
 			}
 			return l
 		},
-		MinFrac: map[string]float64{"has-pairs": 0.2, "cased": 0.3, "uncased": 0.3}})
+		MinFrac: map[string]float64{"has-pairs": 0.12, "cased": 0.3, "uncased": 0.3}})
 }
 
 // ---- invalid definitions are rejected --------------------------------------------
